@@ -102,11 +102,18 @@ def neighbor_pair():
 class _ParseSelf:
     def __init__(self):
         self.neighbors = {}
+        self._uncommitted = []
 
 
 def parse_step(neighbor):
-    """what the configuration parser does with the routes of a neighbor it just built"""
-    ParseNeighbor._init_neighbor(_ParseSelf(), neighbor, {})
+    """what the configuration parser does with the routes of a neighbor it just built: ParseNeighbor._init_neighbor while
+    parsing and, where the tree defers the RIB work to the acceptance of the whole file, ParseNeighbor.commit
+    (called by Configuration._commit_reload) — a SUCCESSFUL reload runs both"""
+    ps = _ParseSelf()
+    ParseNeighbor._init_neighbor(ps, neighbor, {})
+    commit = getattr(ParseNeighbor, 'commit', None)
+    if commit is not None:
+        commit(ps)
 
 
 def mk_peer(neighbor, established):
@@ -341,5 +348,6 @@ def delta_units(tier):
 def units(tier):
     us = []
     us += delta_units(tier)
-    # fault/* (obligation b, all-or-nothing reload) are appended here
+    from checks import c17b   # fault/*, seq/*: obligation (b) and the end-to-end reload histories
+    us += c17b.units(tier)
     return us
